@@ -245,7 +245,13 @@ def encode(case, vendor, rng: random.Random):
 
 def corrupt(case, enc, rng: random.Random):
     """Damage that no vendor pattern describes.  Returns a tag, or None when not applicable."""
-    mode = rng.choice(["prim", "prim", "rows", "rows", "double-orca"])
+    mode = rng.choice(["prim", "prim", "rows", "rows", "double-orca", "alpha-orbital", "alpha-orbital"])
+    if mode == "alpha-orbital":
+        # one alpha orbital mis-scaled (beta orbitals, if any, intact): no correction of the basis or of the rows repairs it
+        j = rng.randrange(enc["Ca"].shape[1])
+        enc["Ca"] = enc["Ca"].copy()
+        enc["Ca"][:, j] *= rng.choice([rng.uniform(0.4, 0.8), rng.uniform(1.25, 2.5)])
+        return "alpha-orbital-scale"
     if mode == "prim":
         multi = [sh for sh in enc["shells"] if len(sh["exps"]) >= 2]
         if not multi:
